@@ -35,7 +35,12 @@ if __name__ == "__main__":
     else:
         for n in EDITS:
             d = tempfile.mkdtemp()
-            files = apply([n], d)
+            try:
+                files = apply([n], d)
+            except AssertionError as e:
+                print(n, "DOES NOT APPLY to", REPO, "(fixed centrally or context changed):", str(e)[:120])
+                shutil.rmtree(d)
+                continue
             out = ""
             for f in files:
                 r = subprocess.run(["diff", "-u", "--label", "a/" + f, "--label", "b/" + f, os.path.join(REPO, f), os.path.join(d, f)], stdout=subprocess.PIPE, text=True)
